@@ -346,6 +346,25 @@ def _rules(ck, prog, cfg):
                      "while a transaction is open a command that fails to parse does not always mark the transaction as failed: the "
                      "command is dropped with an error and EXEC then runs the rest (half a transaction, no EXECABORT)",
                      fn.where(pt["ln"]), detail="transaction_errors = true on every in_transaction path of the Err arm")
+    # the queueing arm (every command without an arm of its own while a transaction is open): queued, or the transaction is marked failed
+    other_t = fn.term(sw_tx).get("else")
+    pushes = {b for b, t in fn.calls() if is_callee(t, r"Vec::<redis::command::Command>::push$") and t["args"] and _self_field(fn, t["args"][0]) == "transaction_queue"}
+    flagged = {b for b in fn.reachable_blocks() for st in fn.blocks[b]["st"] if "p" in st["lhs"] and _self_field(fn, st["lhs"], True) == "transaction_errors"
+               and st["rv"]["k"] == "use" and st["rv"]["a"].get("c") == "true"}
+    if other_t is not None and pushes:
+        arm = {x for x in fn.reachable_blocks() if fn.dominates(other_t, x)}
+        miss = lib2.path_avoiding(fn, other_t, lambda x: x not in arm or fn.term(x)["k"] == "return", lambda x: x in pushes or x in flagged, (), from_succ=False)
+        lines = []
+        for x in miss or []:
+            ln = fn.term(x).get("ln")
+            if ln and (not lines or lines[-1] != ln):
+                lines.append(ln)
+        ck.check(miss is None, "R05.7", "queue-or-abort" + _tag(cfg),
+                 "while a transaction is open a command can be answered without being queued and without marking the transaction failed (lines %s): "
+                 "EXEC then runs the others - part of the transaction - instead of EXECABORT" % lines[:8], fn.where(lines[0] if lines else None),
+                 detail="every path of the queueing arm pushes to transaction_queue or sets transaction_errors")
+    else:
+        ck.anchor_lost("R05.7", "the queueing arm (push to transaction_queue behind the in-transaction dispatch) was not found")
     # unknown commands inside MULTI
     unk_t = _arm_of(fn, sw_tx, ("Unknown",), names)
     if unk_t is not None:
